@@ -551,3 +551,32 @@ Proof. eexists. split; vm_compute; reflexivity. Qed.
 Lemma last_run_tol_lemma {A} (tf tg : A) (history : list run_kind) k :
   last_run_tol tf tg history k = tol_of tf tg k.
 Proof. unfold last_run_tol. now rewrite last_last. Qed.
+
+(* ------------------------------------------------------------------ *)
+(* On-demand computation of ONE slot (get_efield, recomputation)       *)
+(* ------------------------------------------------------------------ *)
+Section OnDemand.
+  Context {K V T : Type}.
+  Variable keqb : K -> K -> bool.
+  Hypothesis keqb_spec : forall a b, reflect (a = b) (keqb a b).
+  Variable f : T -> V.
+  Variable mk : K -> option V -> T.
+
+  Lemma on_demand_slot c nw tr k d d' :
+    is_ordered c = true ->
+    compute keqb f mk c nw tr [k] d = Some d' ->
+    d' k = Some (f (mk k (d k))) /\ (forall k', k' <> k -> d' k' = d k').
+  Proof.
+    intros Hc H.
+    destruct (compute_slots keqb keqb_spec f mk c nw tr [k] d d' Hc
+                (NoDup_cons k (@in_nil K k) (NoDup_nil K)) H) as [A B].
+    split; [apply A; now left|]. intros k' Hne. apply B. intros [E|[]]. congruence.
+  Qed.
+End OnDemand.
+
+(* writing the hand-over file of one slot leaves the files of all slots with
+   another name as they were *)
+Lemma fwrite_other {B} (s : @fs B) n n' b : n' <> n -> fwrite s n b n' = s n'.
+Proof.
+  intros H. unfold fwrite. destruct (String.eqb_spec n' n); [contradiction|reflexivity].
+Qed.
